@@ -246,15 +246,41 @@ pub fn fragments() -> Vec<&'static str> {
     v
 }
 
+/// Characters chosen against the lexer's character tests rather than one per class: every non-ASCII white-space
+/// character (and the zero-width ones), and for every ASCII punctuation character, digit and blank the characters of
+/// other Unicode blocks that share its low byte (a narrowing `as u8`, a table indexed by the low byte or an ASCII-only
+/// test applied to a wider class confuses exactly these), plus numeric characters that are not ASCII digits.
+pub fn adversarial_chars() -> Vec<char> {
+    let mut v: Vec<char> = vec![
+        '\u{0b}', '\u{0c}', '\u{85}', '\u{a0}', '\u{1680}', '\u{2000}', '\u{2002}', '\u{2003}', '\u{2009}', '\u{200a}', '\u{200b}', '\u{2028}', '\u{2029}', '\u{202f}', '\u{205f}', '\u{3000}', '\u{feff}', '\u{301}', '٣', '²', 'Ⅷ', '½',
+        '\u{7f}', '\u{1}', '\u{ff}', '\u{d7ff}', '\u{e000}', '\u{10ffff}',
+    ];
+    let ascii: Vec<u32> = (0x21u32..=0x2f).chain(0x3a..=0x40).chain(0x5b..=0x60).chain(0x7b..=0x7e).chain([0x30, 0x39, 0x20, 0x09, 0x0a, 0x0d]).collect();
+    for base in [0x100u32, 0x400, 0x4e00, 0x1f600] {
+        for c in &ascii {
+            if let Some(ch) = char::from_u32(base + c) {
+                v.push(ch);
+            }
+        }
+    }
+    v
+}
+
+pub const ADVERSARIAL_CONTEXT: &[&str] = &["", "5", "a", "+", " ", "\n", "(", ":a", ".", "<", "@n", "\"", "x`"];
+
 fn random_input(t: &mut Tape) -> String {
     let frags = fragments();
     let n = 1 + t.choose(40);
     let mut s = String::new();
     for _ in 0..n {
-        match t.choose(10) {
+        match t.choose(11) {
             0..=5 => s.push_str(frags[t.choose(frags.len())]),
             6..=7 => s.push(ALPHABET[t.choose(ALPHABET.len())]),
             8 => s.push(' '),
+            9 if t.flag() => {
+                let a = adversarial_chars();
+                s.push(a[t.choose(a.len())]);
+            }
             _ => {
                 // arbitrary scalar value
                 let c = char::from_u32(t.u32() % 0x11_0000).unwrap_or('x');
@@ -272,7 +298,7 @@ impl Check for C13Check {
     fn rule(&self) -> String {
         format!(
             "Phase strings: every string of length 0..L over a {}-character alphabet with one representative per character class (digit, letter, each operator character, backtick, both quotes, backslash, space, tab, LF, CR, 2-/3-/4-byte characters), \
-             in size order (L=4 quick, 5 thorough); pairs: every ordered pair of token spellings (all operators plus literal/identifier/annotation/whitespace fragments) adjacent and separated by a space or newline; random: strings of up to 40 fragments from a proptest tape. \
+             in size order (L=4 quick, 5 thorough); pairs: every ordered pair of token spellings (all operators plus literal/identifier/annotation/whitespace fragments) adjacent and separated by a space or newline; random: strings of up to 40 fragments from a proptest tape; unicode-adversarial: every non-ASCII white-space / zero-width / non-ASCII numeric character and every character of four other Unicode blocks that shares its low byte with an ASCII punctuation character, digit or blank, between every ordered pair of 13 contexts. \
              Oracle on Ok: concatenation of token texts equals the input, no empty token, (line, column) equal an independent count (skipped when the input contains CR/FF), every token is a valid member of its class by the reference token table, \
              no operator/identifier/number/annotation/whitespace token could have been extended by the next characters, no character that cannot start or continue a token sits in a non-literal token, and widening any blank line with spaces/tabs keeps the same non-whitespace token classes. \
              Err results are always accepted. Non-trivial = lexes to >= 2 tokens of >= 2 classes; distinct = distinct input strings.",
@@ -293,6 +319,7 @@ impl Check for C13Check {
             Phase::exhaustive("strings", space_size(k, l)).with_chunk(16384),
             Phase::exhaustive("pairs", nf * nf * 3).with_chunk(1024),
             Phase::random("random", tier.pick(300_000, 6_000_000), 160).with_min_tape(8).with_chunk(2048),
+            Phase::exhaustive("unicode-adversarial", (adversarial_chars().len() * ADVERSARIAL_CONTEXT.len() * ADVERSARIAL_CONTEXT.len()) as u64).with_chunk(1024),
         ]
     }
     fn run(&self, tier: Tier, phase: usize, input: &Input, ctx: &mut CaseCtx) {
@@ -316,6 +343,14 @@ impl Check for C13Check {
                 let s = random_input(&mut t);
                 ctx.class("random");
                 check_input(&s, ctx, true);
+            }
+            (3, Input::Index(i)) => {
+                let a = adversarial_chars();
+                let n = ADVERSARIAL_CONTEXT.len() as u64;
+                let c = a[(*i / (n * n)) as usize];
+                let (pre, post) = (ADVERSARIAL_CONTEXT[((*i / n) % n) as usize], ADVERSARIAL_CONTEXT[(*i % n) as usize]);
+                ctx.class("unicode-adversarial");
+                check_input(&format!("{}{}{}", pre, c, post), ctx, true);
             }
             (_, Input::Text(s)) => check_input(s, ctx, true),
             _ => {}
